@@ -412,6 +412,38 @@ def run_validated(chk, fx, prefix="C03"):
                 chk.violation(r, key, "%s validates its parameter `%s` in a throwing guard (line %d) and never uses it again: whatever it does, it does for another value than the one that was requested and checked" % (f["q"], p_, in_guard[0]["l"]), f["file"], in_guard[0]["l"])
 
 
+def run_dedupe(chk, fx, prefix="C03"):
+    r = chk.rule(prefix + ".dedupe", "Schedule::applyWellProdIndexScaling rescales the connection sets of the well from the WELPI step onwards in place; consecutive well objects may share one connection set (hasSameConnectionsPointers), so the loop scales an object only if it does not share its set with the LAST SCALED one - the branch that scales also records the object as that reference (prev = current) - otherwise a shared set is scaled once per well object that happens to reference it, and how many do is decided by later input", floor=1)
+    fs = [f for f in fx.fn("Opm::Schedule::applyWellProdIndexScaling") if f.get("body")]
+    if len(fs) != 1:
+        raise core.AnalysisBroken("Schedule::applyWellProdIndexScaling not found")
+    f = fs[0]
+    n_i = 0
+    for lp in [n for n in walk(f["body"]) if n["k"] in ("For", "ForRange", "While")]:
+        for iff in [n for n in walk(lp["body"]) if n["k"] == "If"]:
+            shares = [x for x in walk(iff["cond"]) if x["k"] == "MCall" and x.get("m") == "hasSameConnectionsPointers"]
+            if len(shares) != 1:
+                continue
+            cur = strip(shares[0]["obj"])
+            while cur.get("k") in ("OpCall", "Un") and (cur.get("a") or cur.get("c")):
+                cur = strip((cur.get("a") or cur.get("c"))[0])
+            ref = strip(shares[0]["a"][0])
+            while ref.get("k") in ("OpCall", "Un") and (ref.get("a") or ref.get("c")):
+                ref = strip((ref.get("a") or ref.get("c"))[0])
+            negated = strip(iff["cond"]).get("k") == "Un" and strip(iff["cond"]).get("op") == "!"
+            branch = iff["then"] if negated else iff.get("else")
+            if cur.get("k") != "Ref" or ref.get("k") != "Ref" or branch is None:
+                continue
+            scales = [x for x in walk(branch) if x["k"] == "MCall" and x.get("m") == "applyWellProdIndexScaling"]
+            records = [x for x in walk(branch) if x["k"] == "Bin" and x.get("asg") and x["op"] == "=" and strip(x["c"][0]).get("n") == ref["n"] and strip(x["c"][1]).get("n") == cur["n"]]
+            n_i += 1
+            chk.instance(r, "loop@%d" % lp["l"], sample=dict(function=f["q"], current=cur["n"], reference=ref["n"], scaled_in_branch=len(scales), reference_updated=bool(records)))
+            if scales and not records:
+                chk.violation(r, "loop@%d" % iff["l"], "Schedule::applyWellProdIndexScaling: the branch that rescales `%s` (not sharing its connection set with `%s`) does not record it as the new reference (`%s = %s`): two later well objects that share one connection set are then both rescaled, i.e. the set is scaled twice - and whether a second object exists depends on input of a later report step" % (cur["n"], ref["n"], ref["n"], cur["n"]), f["file"], iff["l"])
+    if not n_i:
+        raise core.AnalysisBroken("applyWellProdIndexScaling: the de-duplicating loop (hasSameConnectionsPointers) was not found")
+
+
 def run_lostupdate(chk, fx, prefix="C03"):
     r = chk.rule(prefix + ".lostupdate", "copy - modify - install: a local object copied out of longer-lived state (a ScheduleState member, a Well's or Group's property object, a network, a config ...) and then modified (non-const member call, directly or through ->, or member assignment) is afterwards read by something - handed to update()/updateX()/emplace, moved, returned, compared; a copy that is modified and then dropped means the keyword or restart record it was built for is silently ignored", floor=150)
     from verif import lostupdate
@@ -432,6 +464,7 @@ def run(chk):
     units = core.library_units()
     fx = chk.facts(units)
     run_lostupdate(chk, fx, "C03")
+    run_dedupe(chk, fx, "C03")
     fh = chk.facts(["opm/input/eclipse/Schedule/Schedule.cpp"], files_re="^/repo/opm/input/eclipse/Schedule/", fn_re="^$")
     for q, r in fh.recs.items():
         fx.recs.setdefault(q, r)
